@@ -285,7 +285,10 @@ class StatementLineageHolder(SubQueryLineageHolder, ColumnLineageMixin):
         }
 
     def add_rename(self, src: Table, tgt: Table) -> None:
-        self.graph.add_edge(src, tgt, type=EdgeType.RENAME)
+        # remember the position of the pair: RENAME a TO b, c TO d applies left to right
+        self.graph.add_edge(
+            src, tgt, type=EdgeType.RENAME, **{EdgeTag.INDEX: len(self.rename)}
+        )
 
     @staticmethod
     def of(holder: SubQueryLineageHolder) -> "StatementLineageHolder":
@@ -376,17 +379,32 @@ class SQLLineageHolder(ColumnLineageMixin):
     ) -> DiGraph:
         g = DiGraph()
         for holder in args:
+            if holder.rename and not holder.drop:
+                # RENAME a TO b, c TO d is RENAME a TO b followed by RENAME c TO d: apply the pairs one at a
+                # time in statement order. Iterating the set of pairs followed the hash order, and composing
+                # all pairs at once let the relabelling of one pair rewrite the marker edge of the next.
+                renames = sorted(
+                    (
+                        (src, tgt, attr)
+                        for src, tgt, attr in holder.graph.edges(data=True)
+                        if attr.get("type") == EdgeType.RENAME
+                    ),
+                    key=lambda x: x[2].get(EdgeTag.INDEX, 0),
+                )
+                for table_old, table_new, attr in renames:
+                    marker = DiGraph()
+                    marker.add_edge(table_old, table_new, **attr)
+                    g = nx.compose(g, marker)
+                    g = nx.relabel_nodes(g, {table_old: table_new})
+                    g.remove_edge(table_new, table_new)
+                    if g.degree[table_new] == 0:
+                        g.remove_node(table_new)
+                continue
             g = nx.compose(g, holder.graph)
             if holder.drop:
                 for table in holder.drop:
                     if g.has_node(table) and g.degree[table] == 0:
                         g.remove_node(table)
-            elif holder.rename:
-                for table_old, table_new in holder.rename:
-                    g = nx.relabel_nodes(g, {table_old: table_new})
-                    g.remove_edge(table_new, table_new)
-                    if g.degree[table_new] == 0:
-                        g.remove_node(table_new)
             else:
                 read, write = holder.read, holder.write
                 if len(read) > 0 and len(write) == 0:
